@@ -948,6 +948,19 @@ def fam_tok(prop, tier):
          "Some(a) |> |x: u8| { *cnt_ref += 1; x } ~|> |x: u8| x, Some(local.0) ~|> |x: u8| x.wrapping_add(local.0)",
          "0", "(Some(x), Some(y)) => *x == a && *y == 14, _ => false"),
     ]
+    # options that must not change what is evaluated: the documented defaults written out, and `transpose_results` on a
+    # macro that has nothing to transpose
+    progs += [
+        ("opt_transpose_noop_join", "join", "(Option<Tok>, Option<Tok>)",
+         "transpose_results(true) Some(Tok::new(a)) |> |t: Tok| Tok::new(t.0.wrapping_add(1)) ~=> |t: Tok| if keep { Some(t) } else { None }, Some(Tok::new(2)) ~?> |t: &Tok| t.0 > 1",
+         "r.0.is_some() as i32 + r.1.is_some() as i32", "(Some(x), _) => x.0 == a.wrapping_add(1), _ => !keep"),
+        ("opt_defaults_written_out_try", "try_join", "Option<(Tok, Tok)>",
+         "lazy_branches(false) transpose_results(true) Some(Tok::new(a)) ~=> |t: Tok| if keep { Some(t) } else { None }, Some(Tok::new(2)) ~|> |t: Tok| Tok::new(t.0 + 1)",
+         "if r.is_some() { 2 } else { 0 }", "Some((x, y)) => keep && x.0 == a && y.0 == 3, None => !keep"),
+        ("opt_lazy_false_join", "join", "(Option<Tok>, Option<Tok>)",
+         "lazy_branches(false) Some(Tok::new(a)) ~=> |t: Tok| if keep { Some(t) } else { None }, Some(Tok::new(2))",
+         "r.0.is_some() as i32 + r.1.is_some() as i32", "(Some(x), Some(y)) => keep && x.0 == a && y.0 == 2, (None, Some(_)) => !keep, _ => false"),
+    ]
     if prop == "C19":
         # non-Send (Rc) values and non-'static borrows in the non-spawning kinds, sync and async
         extra = [
